@@ -301,7 +301,8 @@ package wal
 //@ func wal.readAtIndex(t, index) (entry, err)
 //@ trusted
 //@ ensures err == nil ==> entry != nil && entry.Offset == index
-//@ preserves fields(wal), fields(readWriteSegment), fields(reader), fields(forwardReader), fields(reverseReader)
+//@ preserves fields(wal), fields(readWriteSegment), fields(reader), fields(forwardReader), fields(reverseReader), fields(github.com/oxia-db/oxia/server.followerController), fields(github.com/oxia-db/oxia/server.leaderController), fields(proto.LogEntryValue)
+//@ note trusted: this package does not import the server package and cannot reach the controllers' state
 //@ note trusted: the payload stored at offset i is the marshalled LogEntry whose Offset field is i (appendAsync0 is the only writer and stores entry.Offset at that index); protobuf round trip and the RefCount-wrapped read-only segments are not verified
 
 //@ func wal.NewReader(t, after) (r, err)
@@ -320,8 +321,9 @@ package wal
 //@ property C09
 //@ requires r.reader.wal != nil && r.reader.wal.readLatency != nil && r.reader.nextOffset < 9223372036854775807
 //@ ensures err == nil ==> entry != nil && entry.Offset == old(r.reader.nextOffset) && r.reader.nextOffset == old(r.reader.nextOffset) + 1
+//@ ensures r.reader.wal == old(r.reader.wal) && r.reader.closed == old(r.reader.closed)
 //@ ensures err != nil ==> r.reader.nextOffset == old(r.reader.nextOffset)
-//@ preserves fields(wal)
+//@ preserves fields(wal), fields(github.com/oxia-db/oxia/server.followerController), fields(github.com/oxia-db/oxia/server.leaderController), fields(proto.LogEntryValue)
 
 //@ func forwardReader.HasNext
 //@ property C09
@@ -329,12 +331,37 @@ package wal
 //@ ensures result <==> (!r.reader.closed && r.reader.nextOffset <= r.reader.wal.lastSyncedOffset.v)
 //@ modifies nothing
 
+// The reader interface, for the callers that hold a forward reader (the replay loops of
+// the leader and of the follower): what the forward implementation guarantees,
+// conditional on the dynamic type. Refined by both implementations.
+//
+//@ func Reader.ReadNext(recv) (entry, err)
+//@ property C09 C07
+//@ requires typeIs(recv, *forwardReader) ==> as(recv, *forwardReader).reader.wal != nil && as(recv, *forwardReader).reader.wal.readLatency != nil && as(recv, *forwardReader).reader.nextOffset < 9223372036854775807
+//@ requires typeIs(recv, *reverseReader) ==> as(recv, *reverseReader).reader.wal != nil && as(recv, *reverseReader).reader.nextOffset > -9223372036854775808
+//@ ensures typeIs(recv, *forwardReader) && err == nil ==> entry != nil && entry.Offset == old(as(recv, *forwardReader).reader.nextOffset) && as(recv, *forwardReader).reader.nextOffset == old(as(recv, *forwardReader).reader.nextOffset) + 1
+//@ ensures typeIs(recv, *forwardReader) ==> as(recv, *forwardReader).reader.wal == old(as(recv, *forwardReader).reader.wal) && as(recv, *forwardReader).reader.closed == old(as(recv, *forwardReader).reader.closed)
+//@ ensures typeIs(recv, *forwardReader) && err != nil ==> as(recv, *forwardReader).reader.nextOffset == old(as(recv, *forwardReader).reader.nextOffset)
+//@ preserves fields(wal), fields(github.com/oxia-db/oxia/server.followerController), fields(github.com/oxia-db/oxia/server.leaderController), fields(proto.LogEntryValue)
+
+//@ func Reader.Close(recv) (err)
+//@ trusted
+//@ modifies fields(reader), fields(forwardReader), fields(reverseReader)
+//@ note trusted: both implementations only set their closed flag (under the reader's and the log's mutex)
+
+//@ func Reader.HasNext(recv) (res)
+//@ property C09 C07
+//@ requires typeIs(recv, *forwardReader) ==> as(recv, *forwardReader).reader.wal != nil
+//@ requires typeIs(recv, *reverseReader) ==> as(recv, *reverseReader).reader.wal != nil && as(recv, *reverseReader).reader.wal.firstOffset.v >= -1
+//@ ensures typeIs(recv, *forwardReader) ==> (res <==> (!as(recv, *forwardReader).reader.closed && as(recv, *forwardReader).reader.nextOffset <= as(recv, *forwardReader).reader.wal.lastSyncedOffset.v))
+//@ modifies nothing
+
 //@ func reverseReader.ReadNext(r) (entry, err)
 //@ property C09
 //@ requires r.reader.wal != nil && r.reader.nextOffset > -9223372036854775808
 //@ ensures err == nil ==> entry != nil && entry.Offset == old(r.reader.nextOffset) && r.reader.nextOffset == old(r.reader.nextOffset) - 1
 //@ ensures err != nil ==> r.reader.nextOffset == old(r.reader.nextOffset)
-//@ preserves fields(wal)
+//@ preserves fields(wal), fields(github.com/oxia-db/oxia/server.followerController), fields(github.com/oxia-db/oxia/server.leaderController), fields(proto.LogEntryValue)
 
 //@ func reverseReader.HasNext
 //@ property C09
